@@ -171,16 +171,20 @@ theorem C16_warning_text (e : Err) (hwf : e.WF = true) :
   obtain ⟨ctx, _, h, _⟩ := C16_render_total e hwf warningPrefix
   exact ⟨ctx, h⟩
 
-/-- Exit status of the command line (`CommandLine.__call__`, run from a fresh module state):
+/-- Exit status of the command line (`CommandLine.__call__`; `main` resets `error_code` first, so
+from ANY module state outside a capture, whatever `error_code` and `strict` were):
 0 iff nothing was reported, 2 iff there were only warnings, 1 iff a pybtex error escaped; stderr
-carries one warning per report, in order, then the fatal error with the `ERROR: ` prefix. -/
-theorem C16_exit_status (s : State E) (c : Comp E) (h1 : s.captured = none) (h2 : s.errorCode = 0) :
+carries one warning per report, in order, then the fatal error with the `ERROR: ` prefix; the
+caller's `strict` is put back and `error_code` is left as the status of this run's warnings. -/
+theorem C16_exit_status (s : State E) (c : Comp E) (h1 : s.captured = none) :
     (commandLine s c).2.2 = (Spec.modes c).status ∧
     (commandLine s c).2.1 = c.reports.map (fun e => (false, e)) ++
       (match c.fatal with
        | some f => [(true, f)]
-       | none => []) := by
-  have h := (C16_mode_independent (setStrict s false) c).2.1 (by simp [setStrict, h1]) (by simp [setStrict])
+       | none => []) ∧
+    (commandLine s c).1 = { s with errorCode := if c.reports.isEmpty then 0 else 2 } := by
+  have h := (C16_mode_independent (setStrict { s with errorCode := 0 } false) c).2.1
+    (by simp [setStrict, h1]) (by simp [setStrict])
   have hp : ∀ l : List E, printedOf (l.map Obs.printed) = l := by
     intro l
     induction l with
@@ -189,16 +193,18 @@ theorem C16_exit_status (s : State E) (c : Comp E) (h1 : s.captured = none) (h2 
   simp only [commandLine]
   rw [h]
   cases hf : c.fatal with
-  | some f => simp [Spec.modes, hf, hp]
+  | some f => simp [Spec.modes, hf, hp, setStrict]
   | none =>
-    simp only [Spec.modes, hf, hp, setStrict, h2]
+    simp only [Spec.modes, hf, hp, setStrict]
     cases c.reports <;> simp
 
 theorem C16_exit_status_nonvacuous :
     (commandLine (State.init : State Nat) { reports := [], fatal := none }).2.2 = 0 ∧
     (commandLine (State.init : State Nat) { reports := [1], fatal := none }).2.2 = 2 ∧
     (commandLine (State.init : State Nat) { reports := [1], fatal := some 5 }).2
-      = ([(false, 1), (true, 5)], 1) := by decide
+      = ([(false, 1), (true, 5)], 1) ∧
+    (commandLine ({ strict := true, errorCode := 2, captured := none } : State Nat) { reports := [], fatal := none })
+      = ({ strict := true, errorCode := 0, captured := none }, [], 0) := by decide
 
 /-! ## capture contexts
 
@@ -618,9 +624,9 @@ theorem C16_aux_reader_exits_listed_nonvacuous :
 /-- `--strict` on the command line of `pybtex`, `pybtex-convert`, `pybtex-format` (accepted
 options in any order and number, right number of arguments), from ANY module state outside a
 capture: "in strict mode the first problem raises" — the first problem is what ends the run: it is
-the only thing written to stderr, with the `ERROR: ` prefix, the exit status is 1 and `error_code`
-is untouched; an input without problems finishes with the status the interpreter had
-(`error_code`, 0 in a fresh process). -/
+the only thing written to stderr, with the `ERROR: ` prefix, and the exit status is 1; an input
+without problems finishes with status 0.  Afterwards `strict` is what the CALLER had (the
+`finally` of `main`), `error_code` is 0 (reset at the start, nothing was printed). -/
 theorem C16_main_strict_option (numArgs : Nat) (perr : E) (s : State E) (a : Argv) (c : Comp E)
     (hacc : ∀ o ∈ a.opts, o = .strict ∨ o = .other) (hs : CliOpt.strict ∈ a.opts)
     (hn : a.nargs = numArgs) (hc : s.captured = none) :
@@ -631,23 +637,13 @@ theorem C16_main_strict_option (numArgs : Nat) (perr : E) (s : State E) (a : Arg
     (cliMain numArgs perr s a c).2.2 =
       (match (Spec.modes c).strictRaises with
        | some _ => 1
-       | none => s.errorCode) ∧
-    (cliMain numArgs perr s a c).1 = { s with strict := true } := by
-  have key : ∀ (opts : List CliOpt) (t : State E), (∀ o ∈ opts, o = .strict ∨ o = .other) →
-      applyOpts perr t opts = ({ t with strict := (if CliOpt.strict ∈ opts then true else t.strict) }, none) := by
-    intro opts
-    induction opts with
-    | nil => intro t _; simp [applyOpts]
-    | cons o os ih =>
-      intro t h
-      have hos : ∀ o ∈ os, o = .strict ∨ o = .other := fun o ho => h o (by simp [ho])
-      rcases h o (by simp) with rfl | rfl
-      · rw [applyOpts, ih _ hos]; simp [setStrict]
-      · rw [applyOpts, ih _ hos]; simp
-  have hm := (C16_mode_independent ({ s with strict := true }) c).2.2 hc rfl
-  simp only [cliMain, key a.opts _ hacc, hs, if_true, hn, ne_eq, not_true_eq_false, if_false, setStrict]
+       | none => 0) ∧
+    (cliMain numArgs perr s a c).1 = { s with errorCode := 0 } := by
+  have hm := (C16_mode_independent ({ s with errorCode := 0, strict := true }) c).2.2 hc rfl
+  simp only [cliMain, Errors.applyOpts_accepted perr a.opts _ hacc, hs, if_true, hn, ne_eq, not_true_eq_false,
+    if_false, setStrict]
   obtain ⟨h1, h2, h3, _, _⟩ := hm
-  generalize exec { s with strict := true } c = r at h1 h2 h3
+  generalize exec { s with errorCode := 0, strict := true } c = r at h1 h2 h3
   obtain ⟨r1, r2, r3⟩ := r
   simp only at h1 h2 h3
   subst h1 h2
@@ -658,13 +654,16 @@ theorem C16_main_strict_option_nonvacuous :
       = ([(true, 7)], 1) ∧
     (cliMain 2 (0 : Nat) State.init { opts := [.strict], nargs := 2 } { reports := [], fatal := none }).2 = ([], 0) ∧
     (cliMain 2 (0 : Nat) State.init { opts := [], nargs := 2 } { reports := [7, 8], fatal := none }).2
-      = ([(false, 7), (false, 8)], 2) := by decide
+      = ([(false, 7), (false, 8)], 2) ∧
+    (cliMain 2 (0 : Nat) { strict := false, errorCode := 2, captured := none } { opts := [.strict], nargs := 2 }
+        { reports := [7], fatal := none })
+      = ({ strict := false, errorCode := 0, captured := none }, [(true, 7)], 1) := by decide
 
-/-- Without `--strict` `main` is the non-strict run of `C16_exit_status`, whatever `strict` was
-before (`main` resets it), and from ANY `error_code`: every problem is printed as a warning in
-order, a fatal error follows with `ERROR: `; the exit status is 1 for a fatal error, 2 as soon as
-one problem was reported, and otherwise what `error_code` was.  So problems ALWAYS make the status
-non-zero; "no problem ⇒ status 0" needs a fresh `error_code` (see `C16_exit_status_sticky_neg`).
+/-- Without `--strict` `main` is the non-strict run of `C16_exit_status`, whatever `strict` and
+`error_code` were before (`main` resets both, and puts `strict` back afterwards): every problem is
+printed as a warning in order, a fatal error follows with `ERROR: `; the exit status is 1 for a
+fatal error, 2 as soon as one problem was reported, 0 otherwise — problems ALWAYS make the status
+non-zero, and no problem means status 0, from any state.
 A command line that is not accepted never runs the computation and never ends with status 0,
 except `--help` / `--version`. -/
 theorem C16_main_exit_status (numArgs : Nat) (perr : E) (s : State E) (a : Argv) (c : Comp E)
@@ -675,10 +674,7 @@ theorem C16_main_exit_status (numArgs : Nat) (perr : E) (s : State E) (a : Argv)
         (match c.fatal with
          | some f => [(true, f)]
          | none => []) ∧
-      (cliMain numArgs perr s a c).2.2 =
-        (match c.fatal with
-         | some _ => 1
-         | none => if c.reports.isEmpty then s.errorCode else 2)) ∧
+      (cliMain numArgs perr s a c).2.2 = (Spec.modes c).status) ∧
     ((∀ o ∈ a.opts, o ≠ .info) → (a.nargs ≠ numArgs ∨ CliOpt.rejected ∈ a.opts ∨ CliOpt.pluginError ∈ a.opts) →
       (cliMain numArgs perr s a c).2.2 ≠ 0) := by
   constructor
@@ -690,23 +686,10 @@ theorem C16_main_exit_status (numArgs : Nat) (perr : E) (s : State E) (a : Argv)
       | cons o os ih =>
         intro t h
         rw [h o (by simp), applyOpts, ih t (fun o ho => h o (by simp [ho]))]
-    have h := (C16_mode_independent (setStrict s false) c).2.1 (by simp [setStrict, hc]) (by simp [setStrict])
-    have hp : ∀ l : List E, printedOf (l.map Obs.printed) = l := by
-      intro l
-      induction l with
-      | nil => rfl
-      | cons a l ih => simp [printedOf, ih]
     have e1 : cliMain numArgs perr s a c = commandLine s c := by
       simp only [cliMain, key a.opts _ hacc, hn, ne_eq, not_true_eq_false, if_false, commandLine]
-    refine ⟨e1, ?_, ?_⟩
-    · rw [e1]
-      simp only [commandLine]
-      rw [h]
-      cases hf : c.fatal <;> simp [Spec.modes, hp]
-    · rw [e1]
-      simp only [commandLine]
-      rw [h]
-      cases hf : c.fatal <;> simp [setStrict]
+    obtain ⟨h1, h2, _⟩ := C16_exit_status s c hc
+    exact ⟨e1, by rw [e1]; exact h2, by rw [e1]; exact h1⟩
   · intro hinfo hbad
     have key : ∀ (opts : List CliOpt) (t : State E), (∀ o ∈ opts, o ≠ .info) →
         ((applyOpts perr t opts).2 = none ∧ CliOpt.rejected ∉ opts ∧ CliOpt.pluginError ∉ opts) ∨
@@ -723,23 +706,23 @@ theorem C16_main_exit_status (numArgs : Nat) (perr : E) (s : State E) (a : Argv)
         | rejected => right; left; rfl
         | info => exact absurd rfl (h .info (by simp))
         | pluginError => right; right; rfl
-    rcases key a.opts (setStrict s false) hinfo with ⟨h1, h2, h3⟩ | h1 | h1
+    rcases key a.opts (setStrict { s with errorCode := 0 } false) hinfo with ⟨h1, h2, h3⟩ | h1 | h1
     · have hn : a.nargs ≠ numArgs := by
         rcases hbad with h | h | h
         · exact h
         · exact absurd h h2
         · exact absurd h h3
-      generalize hg : applyOpts perr (setStrict s false) a.opts = r at h1
+      generalize hg : applyOpts perr (setStrict { s with errorCode := 0 } false) a.opts = r at h1
       obtain ⟨r1, r2⟩ := r
       simp only at h1
       subst h1
       simp [cliMain, hg, hn]
-    · generalize hg : applyOpts perr (setStrict s false) a.opts = r at h1
+    · generalize hg : applyOpts perr (setStrict { s with errorCode := 0 } false) a.opts = r at h1
       obtain ⟨r1, r2⟩ := r
       simp only at h1
       subst h1
       simp [cliMain, hg]
-    · generalize hg : applyOpts perr (setStrict s false) a.opts = r at h1
+    · generalize hg : applyOpts perr (setStrict { s with errorCode := 0 } false) a.opts = r at h1
       obtain ⟨r1, r2⟩ := r
       simp only at h1
       subst h1
@@ -753,17 +736,85 @@ theorem C16_main_exit_status_nonvacuous :
     (cliMain 2 (5 : Nat) State.init { opts := [.pluginError], nargs := 2 } { reports := [7], fatal := none }).2
       = ([(true, 5)], 1) := by decide
 
-/-- `error_code` is never cleared: a second command line run in the same interpreter after a run
-with warnings ends with status 2 although its own input has no problem ("status 0 iff nothing was
-reported" holds from a fresh module state only — `C16_exit_status`, hypothesis `errorCode = 0`).
-`strict`, on the contrary, does not leak: every `main` resets it first. -/
-theorem C16_exit_status_sticky_neg :
+/-- `main` does not depend on, and does not disturb, the caller's reporting state (8c0015f): from
+ANY module state outside a capture what a command line writes and its exit status are those of the
+same command line in a fresh interpreter; afterwards `strict` is what the caller had — on every way
+out: accepted or rejected options, `--help`, an unknown plug-in, a wrong argument count, a fatal
+error, a `--strict` raise —, no capture has been opened, and `error_code` is 0 or 2.  So in a
+sequence of command lines run in one interpreter every run has the status of ITS OWN input.
+(`error_code` set by `report_error` OUTSIDE `main` still stays set until something resets it:
+`C16_error_code_monotone`.) -/
+theorem C16_main_history_independent (numArgs : Nat) (perr : E) (s : State E) (a : Argv) (c : Comp E)
+    (hc : s.captured = none) :
+    (cliMain numArgs perr s a c).2 = (cliMain numArgs perr State.init a c).2 ∧
+    (cliMain numArgs perr s a c).1.strict = s.strict ∧
+    (cliMain numArgs perr s a c).1.captured = none ∧
+    ((cliMain numArgs perr s a c).1.errorCode = 0 ∨ (cliMain numArgs perr s a c).1.errorCode = 2) := by
+  have hs1 : setStrict { s with errorCode := 0 } false = setStrict { (State.init : State E) with errorCode := 0 } false := by
+    cases s; simp_all [setStrict, State.init]
+  have hopt : ∀ (opts : List CliOpt) (t : State E), t.captured = none → t.errorCode = 0 →
+      (applyOpts perr t opts).1.captured = none ∧ (applyOpts perr t opts).1.errorCode = 0 := by
+    intro opts
+    induction opts with
+    | nil => intro t h1 h2; exact ⟨h1, h2⟩
+    | cons o os ih =>
+      intro t h1 h2
+      cases o <;> simp only [applyOpts]
+      · exact ih _ (by simp [setStrict, h1]) (by simp [setStrict, h2])
+      · exact ih _ h1 h2
+      all_goals exact ⟨h1, h2⟩
+  have hexec : ∀ (t : State E), t.captured = none → t.errorCode = 0 →
+      (exec t c).1.captured = none ∧ ((exec t c).1.errorCode = 0 ∨ (exec t c).1.errorCode = 2) := by
+    intro t h1 h2
+    cases hst : t.strict with
+    | false =>
+      have h := (C16_mode_independent t c).2.1 h1 hst
+      rw [h]
+      refine ⟨h1, ?_⟩
+      simp only
+      split <;> simp [h2]
+    | true =>
+      have h := ((C16_mode_independent t c).2.2 h1 hst).1
+      rw [h]
+      exact ⟨h1, Or.inl h2⟩
+  refine ⟨?_, ?_⟩
+  · simp only [cliMain, hs1]
+    generalize applyOpts perr (setStrict { (State.init : State E) with errorCode := 0 } false) a.opts = r
+    obtain ⟨r1, r2⟩ := r
+    cases r2 with
+    | some st => cases st <;> rfl
+    | none =>
+      simp only
+      split
+      · rfl
+      · cases (exec r1 c).2.2 <;> rfl
+  · have h0 := hopt a.opts (setStrict { s with errorCode := 0 } false) (by simp [setStrict, hc]) (by simp [setStrict])
+    simp only [cliMain]
+    generalize applyOpts perr (setStrict { s with errorCode := 0 } false) a.opts = r at h0
+    obtain ⟨r1, r2⟩ := r
+    simp only at h0
+    cases r2 with
+    | some st => cases st <;> simp [setStrict, h0.1, h0.2]
+    | none =>
+      simp only
+      split
+      · simp [setStrict, h0.1, h0.2]
+      · have he := hexec r1 h0.1 h0.2
+        cases (exec r1 c).2.2 <;> simp [setStrict, he.1, he.2]
+
+/-- a run with warnings followed by a clean input: statuses 2 then 0 (before 8c0015f: 2 then 2);
+a caller in strict mode is in strict mode again after a non-strict `main`, and after an option
+error -/
+theorem C16_main_history_independent_nonvacuous :
     (cliRuns 2 (0 : Nat) State.init
       [({ opts := [], nargs := 2 }, { reports := [7], fatal := none }),
-       ({ opts := [], nargs := 2 }, { reports := [], fatal := none })]).2 = [([(false, 7)], 2), ([], 2)] ∧
+       ({ opts := [], nargs := 2 }, { reports := [], fatal := none })]).2 = [([(false, 7)], 2), ([], 0)] ∧
     (cliRuns 2 (0 : Nat) State.init
       [({ opts := [.strict], nargs := 2 }, { reports := [], fatal := none }),
-       ({ opts := [], nargs := 2 }, { reports := [7], fatal := none })]).2 = [([], 0), ([(false, 7)], 2)] := by
+       ({ opts := [], nargs := 2 }, { reports := [7], fatal := none })])
+      = ({ strict := true, errorCode := 2, captured := none }, [([], 0), ([(false, 7)], 2)]) ∧
+    (cliMain 2 (0 : Nat) State.init { opts := [.rejected], nargs := 0 } { reports := [7], fatal := none })
+      = (State.init, [], 2) := by
   decide
 
 /-! ## runs of the BibTeX engine -/
